@@ -176,9 +176,14 @@ func runCheck(prop string, ps *PropSpec, tier, repo string, seed int, verbose bo
 	if tier == "thorough" {
 		timeout = 90
 	}
-	evPath := filepath.Join(vdir, "evidence", prop+".json")
+	outDir := vdir
+	if d := os.Getenv("VERIF_OUT"); d != "" {
+		// scratch runs (selftests, seeded changes) must not overwrite the evidence of the real tree
+		outDir = d
+	}
+	evPath := filepath.Join(outDir, "evidence", prop+".json")
 	_ = os.MkdirAll(filepath.Dir(evPath), 0o755)
-	replayDir := filepath.Join(vdir, "replays", prop)
+	replayDir := filepath.Join(outDir, "replays", prop)
 	_ = os.RemoveAll(replayDir)
 	_ = os.MkdirAll(replayDir, 0o755)
 
